@@ -34,6 +34,7 @@ type c02Case struct {
 	Loggers []string `json:"logger_tags"`                 // tags attribute of logger l0, l1, ...
 	Root    string   `json:"root"`                        // "none" | "plain" | "tags"
 	ViaProp bool     `json:"tags_via_property,omitempty"` // every tag list is given as ${property} instead of literally
+	Levels  []string `json:"logger_levels,omitempty"`     // level attribute of logger l0, l1, ... ("" = not set): routing and the error rules do not depend on it
 }
 
 // refRoute returns the serving logger name ("l0".., "root" or "console") per tag, or an error.
@@ -119,6 +120,16 @@ func init() {
 					}
 				}
 			}
+			// the rules are about tag lists: a logger whose level range excludes the event, or is empty ("max", "info~info",
+			// "error~info" - the usual way to silence a tag), still owns its tags (nothing reaches anyone) and still has to obey the error rules
+			for _, lv := range []string{"max", "info~info", "error~info", "ERROR", "none~none"} {
+				for _, a := range lists {
+					for _, b := range c02Patterns {
+						yield(c02Case{Loggers: []string{a, b}, Root: roots[len(a)%2], Levels: []string{lv, ""}})
+					}
+					yield(c02Case{Loggers: []string{a}, Root: "plain", Levels: []string{lv}})
+				}
+			}
 			single := c02Patterns
 			for _, a := range single {
 				for _, b := range single {
@@ -162,6 +173,9 @@ func init() {
 				conf["appender.r"+n+".type"] = "Rec"
 				conf["logger."+n+".type"] = "Logger"
 				conf["logger."+n+".appenderRef.ref"] = "r" + n
+				if i < len(c.Levels) && c.Levels[i] != "" {
+					conf["logger."+n+".level"] = c.Levels[i]
+				}
 				if tags != "" {
 					conf["logger."+n+".tags"] = tags
 					if c.ViaProp {
@@ -180,6 +194,9 @@ func init() {
 				}
 			}
 			key := fmt.Sprintf("loggers=%q root=%s", c.Loggers, c.Root)
+			if len(c.Levels) > 0 {
+				key += fmt.Sprintf(" levels=%q", c.Levels)
+			}
 			if c.ViaProp {
 				key += " (tag lists through ${properties}; a named handle exists for logger l0)"
 				// the rules are about the configuration: a handle obtained for a logger's name does not excuse it from listing tags
@@ -218,6 +235,17 @@ func init() {
 			for _, tag := range c02TagNames {
 				got := served[tag]
 				fmt.Fprintf(&sb, "%s->%v ", tag, got)
+				if w := want[tag]; len(w) > 1 && w[0] == 'l' {
+					var i int
+					fmt.Sscanf(w[1:], "%d", &i)
+					if i < len(c.Levels) && c.Levels[i] != "" && !refParseRange(c.Levels[i]).has(300) {
+						// served by a logger whose range excludes INFO: the event goes nowhere (in particular not to root)
+						if len(got) != 0 {
+							v = append(v, Violation{Clause: "tag-served-by", Key: key, Detail: fmt.Sprintf("tag %s is served by logger %s whose level %q excludes INFO, but the event reached %v (%s)", tag, w, c.Levels[i], got, confString(conf))})
+						}
+						continue
+					}
+				}
 				if len(got) != 1 || got[0] != want[tag] {
 					v = append(v, Violation{Clause: "tag-served-by", Key: key, Detail: fmt.Sprintf("tag %s served by %v, want exactly [%s] (%s)", tag, got, want[tag], confString(conf))})
 				}
